@@ -263,6 +263,14 @@ def _native_decode_cex(qf, sig):
 # ---- end to end on compiled circuits (bounded) ---------------------------------------------------------
 
 def job_e2e(a):
+    try:
+        with bounded.time_budget(bounded.INSTANCE_BUDGET_S):
+            return _job_e2e(a)
+    except bounded.Budget:
+        return []
+
+
+def _job_e2e(a):
     origin, src = a
     t0 = time.time()
     import hashlib
